@@ -239,7 +239,11 @@ def _one_component(tier):
     out = []
     for c in _all_classes():
         for comp in ('knot', 'coord') + (('weight',) if c['rational'] else ()):
-            for case in ('far', 'near', 'witness'):
+            # the statement is one-directional ("equal ONLY IF ... within the tolerance", "changing by MORE than the
+            # tolerance makes them unequal"): it does not promise that a sub-tolerance change compares equal, so the
+            # `near` case (|eps| < 1e-20 ==> equal) is not an obligation of the check (it would fire on an exact-equality
+            # implementation, which satisfies the property); the code path stays available for exploration
+            for case in ('far', 'witness'):
                 out.append(dict(kind=c['kind'], rational=c['rational'], comp=comp, case=case, full=(tier == 'thorough')))
     return out
 
